@@ -71,6 +71,7 @@ type Stack struct {
 	callers   int32 // outstanding Invoke callers
 	idAlias   map[string]string
 	AgentIDs  map[string]string // actor name -> Lambda-Extension-Identifier
+	PrevIDs   map[string]string // actor name -> the identifier it was issued before the current one (an earlier sandbox generation)
 	LastRtID  string            // request id most recently delivered to the runtime
 	client    *http.Client
 	transport *http.Transport
@@ -105,7 +106,7 @@ func New(cfg Config) (*Stack, error) {
 		_ = os.MkdirAll(filepath.Join(extdir, d), 0o755)
 	}
 	l := &Log{}
-	s := &Stack{Cfg: cfg, L: l, Sup: NewFakeSup(l), Root: root, pending: map[int]*Call{}, idAlias: map[string]string{}, AgentIDs: map[string]string{}}
+	s := &Stack{Cfg: cfg, L: l, Sup: NewFakeSup(l), Root: root, pending: map[int]*Call{}, idAlias: map[string]string{}, AgentIDs: map[string]string{}, PrevIDs: map[string]string{}}
 	s.Addr = fmt.Sprintf("127.0.0.1:%d", cfg.Port)
 	b := rapidcore.NewSandboxBuilder().
 		SetSupervisor(s.Sup).
@@ -633,7 +634,17 @@ func HashBytes(b []byte) string { return hash(b) }
 func (s *Stack) SetAgentID(name, id string) {
 	s.mu.Lock()
 	defer s.mu.Unlock()
+	if old := s.AgentIDs[name]; old != "" && old != id {
+		s.PrevIDs[name] = old
+	}
 	s.AgentIDs[name] = id
+}
+
+// PrevAgentID is the identifier `name` held before its current one ("" if none).
+func (s *Stack) PrevAgentID(name string) string {
+	s.mu.Lock()
+	defer s.mu.Unlock()
+	return s.PrevIDs[name]
 }
 
 func (s *Stack) AgentID(name string) string {
